@@ -264,6 +264,17 @@ func (c *Ctx) finish(start time.Time, onlyKey string, cmdline string, writeEvide
 		"wall_s":      time.Since(start).Seconds(),
 		"violations":  nViol + nUnd,
 	}
+	if log := os.Getenv("VERIF_SELFTEST_LOG"); log != "" {
+		if b, err := os.ReadFile(log); err == nil {
+			var ctl []string
+			for _, l := range strings.Split(string(b), "\n") {
+				if strings.HasPrefix(l, "selftest ") {
+					ctl = append(ctl, strings.Join(strings.Fields(l), " "))
+				}
+			}
+			ev["coverage"].(map[string]any)["positive_controls"] = ctl
+		}
+	}
 	if onlyKey == "" && writeEvidence {
 		evPath := filepath.Join(c.verifDir, "evidence", c.Prop+".json")
 		b, _ := json.MarshalIndent(ev, "", " ")
